@@ -81,6 +81,8 @@ func tokenise(src []byte) []string {
 func c20Execute(rnd *rand.Rand) []cloneStep {
 	var handles []*jen.Statement
 	var steps []cloneStep
+	forceFirst := false
+	_ = forceFirst
 	tok := 0
 	fresh := func() string { tok++; return fmt.Sprintf("t%d", tok) }
 	renderAll := func(s *cloneStep) {
@@ -100,8 +102,14 @@ func c20Execute(rnd *rand.Rand) []cloneStep {
 			s.Errs = append(s.Errs, fail)
 		}
 	}
-	appendTo := func(h *jen.Statement, s *cloneStep) {
+	appendTo := func(h *jen.Statement, s *cloneStep, empty bool) {
 		s.LenCap = [2]int{len(*h), cap(*h)}
+		if empty { // nothing rendered yet: start the expression with an operand
+			a := fresh()
+			h.Id(a)
+			s.Kind, s.Tokens = "Id", []string{a}
+			return
+		}
 		switch rnd.Intn(9) {
 		case 0, 1:
 			a := fresh()
@@ -143,10 +151,17 @@ func c20Execute(rnd *rand.Rand) []cloneStep {
 			s.Kind, s.Tokens = "Dot.Call", []string{".", a, "(", b, ")"}
 		}
 	}
-	// the original
-	first := jen.Id(fresh())
+	// the original; one history in five starts from a still-empty statement
+	var first *jen.Statement
+	s0 := cloneStep{Op: "new", Handle: 0, Parent: -1}
+	if rnd.Intn(5) == 0 {
+		first = jen.Add()
+		forceFirst = true
+	} else {
+		first = jen.Id(fresh())
+		s0.Tokens = []string{"t1"}
+	}
 	handles = append(handles, first)
-	s0 := cloneStep{Op: "new", Handle: 0, Parent: -1, Tokens: []string{"t1"}}
 	renderAll(&s0)
 	steps = append(steps, s0)
 	maxHandles := 3 + rnd.Intn(6)
@@ -165,8 +180,15 @@ func c20Execute(rnd *rand.Rand) []cloneStep {
 			handles = append(handles, c)
 		} else {
 			h := rnd.Intn(len(handles))
+			prevToks := steps[len(steps)-1].Renders
+			isEmpty := h < len(prevToks) && len(prevToks[h]) == 0
+			if isEmpty {
+				// while nothing is rendered yet the first operand goes to the original itself (an operand
+				// appended to an empty clone would later sit next to the original's operand: not an expression)
+				h = 0
+			}
 			s = cloneStep{Op: "append", Handle: h, Parent: -1}
-			if pn, what := mon.Guard(func() { appendTo(handles[h], &s) }); pn {
+			if pn, what := mon.Guard(func() { appendTo(handles[h], &s, isEmpty) }); pn {
 				s.Errs = append(s.Errs, "append panicked: "+what)
 				steps = append(steps, s)
 				return steps
@@ -253,6 +275,9 @@ func checkCloneHistory(steps []cloneStep) []string {
 				okLive = eqTokens(s.Renders[h], cat(s.Renders[st.parent], st.own))
 				okSnap = eqTokens(s.Renders[h], cat(st.atClone, st.own))
 			}
+			if st.parent >= 0 && len(st.own) == 0 && !eqTokens(s.Renders[h], s.Renders[st.parent]) {
+				probs = append(probs, fmt.Sprintf("step %d: the unmodified clone h%d renders %v but its original h%d renders %v", si, h, s.Renders[h], st.parent, s.Renders[st.parent]))
+			}
 			if !okLive && !okSnap {
 				probs = append(probs, fmt.Sprintf("step %d: h%d renders %v; its own tokens are %v, its original rendered %v at clone time and %v now — tokens were lost, altered or reordered", si, h, s.Renders[h], st.own, st.atClone, parentNow(s, st.parent)))
 			}
@@ -338,7 +363,7 @@ func c20Case(r *mon.Run, idx int64) {
 
 func runC20(r *mon.Run) {
 	r.SetRule("random histories: 3-8 handles forming a tree by Clone(), 10-60 steps appending 2-8 tokens with unique names (Dot, Op+Id, Add(k), Call, Index, chains — always a valid expression continuation, so handles can be rendered with Render itself) to a random handle, so that clone points with and without spare slice capacity both occur; after every step every handle is rendered with Render and inside a NoFormat File, and tokenised; offline checker against a list model admitting live and snapshot views of the original. non-trivial = history with >=1 clone; distinct by operation sequence")
-	r.Assume("a clone may show its original as it was at clone time or as it is now; both are admitted (the statement promises isolation of originals and survival of clone tokens)")
+	r.Assume("a clone that has been appended to may show its original as it was at clone time or as it is now (both admitted: the statement promises isolation of originals and survival of clone tokens); an unmodified clone must render exactly like its original at every step, as the statement says")
 	c20NegControls(r)
 	n := r.Pick(2500, 100000)
 	mon.Parallel(n, func(i int) { c20Case(r, int64(i)) })
